@@ -100,7 +100,7 @@ def scalar_key(t, v):
     return v
 
 
-def rand_field(r, name, max_extent=4, data_mode='any', cfg_mode='any', sizes=None, ordered=False):
+def rand_field(r, name, max_extent=4, data_mode='any', cfg_mode='any', sizes=None, ordered=False, min_extent=1):
     """tokens for `new <slot>`: configurations outermost first, then the primitive's data.
     Extents are chosen so that the storage matches the layout (capacity of the outermost storage
     order layer)."""
@@ -111,7 +111,7 @@ def rand_field(r, name, max_extent=4, data_mode='any', cfg_mode='any', sizes=Non
         t = l[0]
         if t in ('strided', 'morton', 'hilbert'):
             n = 2 if t == 'hilbert' else int(l[1])
-            sz = list(sizes) if sizes else [r.range(1, max_extent) for _ in range(n)]
+            sz = list(sizes) if sizes else [r.range(min_extent, max_extent) for _ in range(n)]
             toks += sz
             c = 1
             for s in sz:
